@@ -17,14 +17,14 @@ EXTENDS TextQueryOps, Json, IOUtils, SequencesExt
 Rec == ndJsonDeserialize(IOEnv.TRACE)
 N   == Len(Rec)
 
-VARIABLES l, T, ever, docs, model, hasIndex, withPos, scn, bad, cnt
-tvars == <<l, T, ever, docs, model, hasIndex, withPos, scn, bad, cnt>>
+VARIABLES l, T, ever, docs, model, hasIndex, withPos, stable, inIndex, purged, scn, bad, cnt
+tvars == <<l, T, ever, docs, model, hasIndex, withPos, stable, inIndex, purged, scn, bad, cnt>>
 
 IsErr(P) == "error" \in DOMAIN P
 Counters == {"scenarios", "steps", "create", "append", "delete", "index", "optimize", "compact", "query", "step_failed",
              "results", "judged", "accepted", "nonempty", "declined_phrase_without_positions",
              "match-or", "match-and", "phrase", "bool", "limit", "limit_skipped", "upper",
-             "with_deleted", "with_unindexed", "unindexed_match", "multi_delta", "multi_fragment"}
+             "with_deleted", "with_unindexed", "unindexed_match", "multi_delta", "multi_fragment", "with_purged"}
 Bump(c, names) == [n \in DOMAIN c |-> IF n \in names THEN c[n] + 1 ELSE c[n]]
 RECURSIVE BumpAll(_, _)
 BumpAll(c, seqOfSets) == IF seqOfSets = <<>> THEN c ELSE BumpAll(Bump(c, Head(seqOfSets)), Tail(seqOfSets))
@@ -33,10 +33,20 @@ ObsRows(P, d) == {[key |-> P.rows[i][1], doc |-> IF P.rows[i][1] \in DOMAIN d TH
                    indexed |-> (P.rows[i][3] = 1)] : i \in 1..Len(P.rows)}
 
 Declined(st, r) == r.res # "ok" /\ ~withPos /\ HasKind(st.q, "phrase")
+(* Deviation PurgedRowsStayInIndex (what lance does today, found by this check): on a table with
+   stable row ids, compaction physically removes deleted rows but the inverted index keeps their
+   entries and no deletion mask covers them any more; a query that such a row matches fails when
+   the take finds fewer rows than the index returned (or loses result slots under a limit).
+   `purged` holds the keys of those rows.                                                        *)
+PurgedMatch(st) == stable /\ \E k \in purged : k \in DOMAIN docs /\ (\E t \in Terms(st.q) : t \in TokensOf(docs[k]))
 JudgeResult(st, r) ==
   IF r.res # "ok"
-  THEN (IF Declined(st, r) THEN {} ELSE {<<"QueryFailed", <<Kind(st.q), r.res>>>>})
-  ELSE Judge(T, ever, st.q, r.variant.limit, r.rows)
+  THEN (IF Declined(st, r) THEN {}
+        ELSE IF PurgedMatch(st) THEN {<<"QueryFailed", <<"purged-row-in-index", "">>>>}
+        ELSE {<<"QueryFailed", <<Kind(st.q), r.res>>>>})
+  ELSE LET v == Judge(T, ever, st.q, r.variant.limit, r.rows) IN
+       IF r.variant.limit > 0 /\ PurgedMatch(st) /\ v # {} /\ (\A c \in v : c[1] = "LimitCount")
+       THEN {<<"LimitCount", <<"purged-row-in-index", "">>>>} ELSE v
 Facts(st, r) ==
   LET M == MatchSet(T, st.q) IN
   {"results", Kind(st.q)}
@@ -46,10 +56,12 @@ Facts(st, r) ==
   \cup (IF r.variant.limit > 0 THEN {"limit"} ELSE {})
   \cup (IF r.variant.upper THEN {"upper"} ELSE {})
   \cup (IF ever # Keys(T) THEN {"with_deleted"} ELSE {})
+  \cup (IF purged # {} THEN {"with_purged"} ELSE {})
   \cup (IF \E x \in T : ~x.indexed THEN {"with_unindexed"} ELSE {})
   \cup (IF \E x \in T : ~x.indexed /\ x.key \in M THEN {"unindexed_match"} ELSE {})
 
 Init == /\ l = 1 /\ T = {} /\ ever = {} /\ docs = <<>> /\ model = {} /\ hasIndex = FALSE /\ withPos = TRUE
+        /\ stable = FALSE /\ inIndex = {} /\ purged = {}
         /\ scn = 0 /\ bad = <<>> /\ cnt = [n \in Counters |-> 0]
 
 Step(e) ==
@@ -82,17 +94,21 @@ Step(e) ==
      /\ ever' = ever \cup wkeys \cup Keys(obs)
      /\ docs' = docs2
      /\ model' = IF usable THEN Keys(obs) ELSE model1
+     /\ inIndex' = IF op = "index" /\ ok THEN Keys(obs) ELSE IF op = "optimize" /\ ok THEN inIndex \cup Keys(obs) ELSE inIndex
+     /\ purged' = IF op = "index" /\ ok THEN {}
+                  ELSE IF op = "compact" /\ ok /\ stable /\ hasIndex THEN purged \cup (inIndex \ Keys(obs)) ELSE purged
      /\ hasIndex' = IF usable THEN P.deltas > 0 ELSE hasIndex
      /\ withPos' = IF op = "index" /\ ok THEN st.with_position ELSE withPos
      /\ cnt' = BumpAll(Bump(cnt, {"steps", op} \cup (IF ~ok THEN {"step_failed"} ELSE {})
                                    \cup (IF usable /\ P.deltas > 1 /\ op = "query" THEN {"multi_delta"} ELSE {})
                                    \cup (IF usable /\ P.nfrags > 1 /\ op = "query" THEN {"multi_fragment"} ELSE {})), facts)
-     /\ UNCHANGED scn
+     /\ UNCHANGED <<scn, stable>>
 
 Next == /\ l <= N /\ l' = l + 1
         /\ LET e == Rec[l] IN
            IF e.ev = "reset"
            THEN /\ T' = {} /\ ever' = {} /\ docs' = <<>> /\ model' = {} /\ hasIndex' = FALSE /\ withPos' = TRUE
+                /\ stable' = e.stable /\ inIndex' = {} /\ purged' = {}
                 /\ scn' = e.scn /\ bad' = bad /\ cnt' = Bump(cnt, {"scenarios"})
            ELSE Step(e)
 TraceSpec == Init /\ [][Next]_tvars
